@@ -263,6 +263,8 @@ pub struct Agg {
     /// (run index, seed, violation)
     pub violations: Vec<(u64, u64, Violation)>,
     pub samples: Vec<serde_json::Value>,
+    /// (run index, log hash, schedule signature) — only filled when `per_run` is requested
+    pub per_run: Vec<(u64, u64, u64)>,
 }
 
 impl Agg {
@@ -302,6 +304,7 @@ impl Agg {
         }
         self.violations.extend(o.violations);
         self.samples.extend(o.samples);
+        self.per_run.extend(o.per_run);
     }
 }
 
@@ -359,6 +362,9 @@ pub fn batch(prop: &str, base_seed: u64, n_runs: u64, workers: usize, wall_cap_s
                             agg.runs += 1;
                             let endk = s.end.split(':').next().unwrap_or("").to_string();
                             *agg.ends.entry(endk).or_default() += 1;
+                            if std::env::var("DST_PER_RUN").is_ok() {
+                                agg.per_run.push((i, s.log_hash, s.sched_sig ^ s.steps));
+                            }
                             agg.sched_sigs.insert(s.sched_sig);
                             agg.log_hashes.insert(s.log_hash);
                             agg.state_hashes.extend(s.state_hashes.iter().copied());
